@@ -160,6 +160,37 @@ def scen_handshake():
     return out
 
 
+def scen_rogue_listener():
+    """a listener without the key: challenges, welcomes whatever digest comes back, then hangs up (or sends rubbish)
+    instead of answering the client's challenge -- Client() must not hand out a connection"""
+    out = []
+    for ending in ('eof', 'rubbish', 'failure'):
+        class Rogue(Script):
+            def recv_bytes(self, maxlength=None):
+                if not self.replies:
+                    raise EOFError
+                return Script.recv_bytes(self, maxlength)
+        replies = [C.CHALLENGE + b'x' * 20, C.WELCOME]
+        if ending == 'rubbish':
+            replies.append(b'\0' * 16)
+            replies.append(C.FAILURE)
+        if ending == 'failure':
+            replies.append(b'')
+        res = outcome(via_client_any, Rogue(replies), b'secret')
+        if res == 'ok':
+            out.append('Client() handed out a connection to a listener that never proved it holds the key (%s after the welcome)' % ending)
+    return out
+
+
+def via_client_any(conn, key):
+    saved = C.SocketClient, C.address_type
+    C.SocketClient, C.address_type = (lambda address: conn), (lambda address: 'AF_UNIX')
+    try:
+        C.Client('addr', authkey=key)
+    finally:
+        C.SocketClient, C.address_type = saved
+
+
 def scen_types():
     out = []
     for bad in ('text', 5, bytearray(b'k'), ['k']):
@@ -188,7 +219,7 @@ def main():
     data = json.load(open(sys.argv[1]))
     fn = data['function']
     print('replay of %s / %s' % (fn, data['obligation']))
-    bad = scen_deliver() + scen_answer() + scen_handshake() + scen_types()
+    bad = scen_deliver() + scen_answer() + scen_handshake() + scen_types() + scen_rogue_listener()
     for b in bad[:8]:
         print('  violation on real code: ' + b)
     print('REPRODUCED on real code' if bad else 'not reproduced')
